@@ -282,29 +282,43 @@ inductive Enf
   | uuid                         -- `UUIDEnforcer`
 deriving Repr
 
-def Enf.ok (env : Env) (v : PyVal) : Enf → Bool
-  | .type ts => isNone v || ts.any (isInst env v)
-  | .value vs => vs.any (pyEq v)
-  | .uuid => isNone v || (uuidParse v).isSome
+/-- outcome of one enforcer: rule holds, validation error (captured by the pool), or a Python error that escapes -/
+inductive EnfRes | ok | bad (e : VErr) | raised
+deriving DecidableEq, Repr
 
-def Enf.err : Enf → VErr
-  | .type _ => .type
-  | .value _ => .value
-  | .uuid => .uuid
+/-- lists and dictionaries are unhashable: `value in {…}` raises TypeError -/
+def unhashable : PyVal → Bool
+  | .list _ | .dict _ => true
+  | _ => false
+
+def Enf.check (env : Env) (v : PyVal) : Enf → EnfRes
+  | .type ts => if isNone v || ts.any (isInst env v) then .ok else .bad .type
+  | .value vs => if unhashable v then .raised else if vs.any (pyEq v) then .ok else .bad .value
+  | .uuid => if isNone v || (uuidParse v).isSome then .ok else .bad .uuid
 
 structure Pool where
   enforcers : List Enf
   errors : List VErr := []
 deriving Repr
 
+/-- the loop of `EnforcerPool.enforce`: validation errors are appended to the list, a Python error ends the loop -/
+def collect (env : Env) (v : PyVal) : List Enf → List VErr → List VErr × Bool
+  | [], acc => (acc, false)
+  | e :: rest, acc =>
+    match e.check env v with
+    | .ok => collect env v rest acc
+    | .bad err => collect env v rest (acc ++ [err])
+    | .raised => (acc, true)
+
 /-- `EnforcerPool.enforce(value)`: collect, then raise (a single error is popped; an aggregate of several was
-    left in the list by the code as found) -/
+    left in the list by the code as found, which also started from whatever an earlier call had left) -/
 def Pool.enforce (var : Variant) (env : Env) (p : Pool) (v : PyVal) : Pool × V :=
-  let errs := p.errors ++ (p.enforcers.filter (fun e => !e.ok env v)).map Enf.err
-  match errs with
-  | [] => ({ p with errors := [] }, .ok ())
-  | [e] => ({ p with errors := [] }, .error e)
-  | _ => ({ p with errors := match var with | .asFound => errs | .repaired => [] }, .error .aggregate)
+  let start := match var with | .asFound => p.errors | .repaired => []
+  match collect env v p.enforcers start with
+  | (errs, true) => ({ p with errors := errs }, .error .attributeError)
+  | ([], false) => ({ p with errors := [] }, .ok ())
+  | ([e], false) => ({ p with errors := [] }, .error e)
+  | (errs, false) => ({ p with errors := match var with | .asFound => errs | .repaired => [] }, .error .aggregate)
 
 def Pool.run (var : Variant) (env : Env) : Pool → List PyVal → List V
   | _, [] => []
